@@ -310,6 +310,8 @@ int liberasurecode_instance_create(const ec_backend_id_t id,
     instance->desc.backend_desc = instance->common.ops->init(
             &instance->args, instance->desc.backend_sohandle);
     if (NULL == instance->desc.backend_desc) {
+        /* give back the reference taken on the backend library above */
+        liberasurecode_backend_close(instance);
         free (instance);
         return -EBACKENDINITERR;
     }
